@@ -1500,7 +1500,14 @@ class tensor:
                     continue
 
                 # Take average over all elements in the same class
-                classSum = accumarray(linclassidx, data.ravel(order=self.order))
+                # Sum in (at least) double precision: aggregate derives its accumulator
+                # from the element type (float32 for uint64 data, int16 for 8-bit data)
+                classSum = accumarray(
+                    linclassidx,
+                    data.ravel(order=self.order).astype(
+                        np.result_type(data.dtype, np.float64)
+                    ),
+                )
                 classNum = accumarray(linclassidx, 1)
                 # We ignore this division error state because if we don't have an entry
                 # in linclassidx we won't reference the inf or nan in the slice below
